@@ -211,6 +211,9 @@ pub struct Probe {
     /// start gate: (open, waiters) - lets a monitor run a first phase to quiescence (e.g. until the
     /// peer's SETTINGS have been applied) before the application starts its requests
     pub gate: Arc<Mutex<(bool, Vec<std::task::Waker>)>>,
+    /// hold gate: an application task whose plan names a send operation in `hold` waits here right
+    /// before that call (the stream object exists already) until the monitor opens it
+    pub gate2: Arc<Mutex<(bool, Vec<std::task::Waker>)>>,
 }
 
 impl Probe {
@@ -222,7 +225,33 @@ impl Probe {
             parked: Arc::new(Mutex::new(Vec::new())),
             latch: Arc::new(Mutex::new((0, None))),
             gate: Arc::new(Mutex::new((false, Vec::new()))),
+            gate2: Arc::new(Mutex::new((false, Vec::new()))),
         }
+    }
+    pub fn gate2_open(&self) {
+        let mut g = self.gate2.lock().unwrap();
+        g.0 = true;
+        for w in g.1.drain(..) {
+            w.wake();
+        }
+    }
+    pub async fn hold(&self, actor: &str, plan_hold: Option<&'static str>, op: &'static str) {
+        if plan_hold != Some(op) {
+            return;
+        }
+        let t = lock(&self.net).time;
+        self.open_ops.lock().unwrap().insert(actor.to_string(), ("idle(held by the monitor)", t));
+        std::future::poll_fn(|cx| {
+            let mut g = self.gate2.lock().unwrap();
+            if g.0 {
+                std::task::Poll::Ready(())
+            } else {
+                g.1.push(cx.waker().clone());
+                std::task::Poll::Pending
+            }
+        })
+        .await;
+        self.open_ops.lock().unwrap().remove(actor);
     }
     pub fn gate_open(&self) {
         let mut g = self.gate.lock().unwrap();
@@ -464,6 +493,8 @@ pub struct RespPlan {
     pub read_request: bool,
     /// number of send_data pieces to send before ending (None = all)
     pub stop_after_pieces: Option<usize>,
+    /// wait for `Probe::gate2_open` right before this send operation ("send_response" / "send_trailers")
+    pub hold: Option<&'static str>,
 }
 
 impl Default for RespPlan {
@@ -474,6 +505,7 @@ impl Default for RespPlan {
             end: EndMode::Finish,
             read_request: true,
             stop_after_pieces: None,
+            hold: None,
         }
     }
 }
@@ -676,6 +708,7 @@ async fn server_send_half<B: BodyBuf, S: h3::quic::SendStream<B>>(
     probe: &Probe,
     salt: u64,
 ) -> Result<(), ()> {
+    probe.hold(actor, plan.hold, "send_response").await;
     probe
         .call(actor, "send_response", s.send_response(plan.resp.to_response()), |r| unit_out(r, se))
         .await
@@ -691,6 +724,7 @@ async fn server_send_half<B: BodyBuf, S: h3::quic::SendStream<B>>(
     }
     if plan.stop_after_pieces.is_none() {
         if let Some(t) = &plan.resp.trailers {
+            probe.hold(actor, plan.hold, "send_trailers").await;
             probe
                 .call(actor, "send_trailers", s.send_trailers(header_map(t)), |r| unit_out(r, se))
                 .await
@@ -724,6 +758,8 @@ pub struct ReqPlan {
     /// read the response (documented); false = drop after sending
     pub read_response: bool,
     pub stop_after_pieces: Option<usize>,
+    /// wait for `Probe::gate2_open` right before this send operation ("send_trailers")
+    pub hold: Option<&'static str>,
 }
 
 impl Default for ReqPlan {
@@ -734,6 +770,7 @@ impl Default for ReqPlan {
             end: EndMode::Finish,
             read_response: true,
             stop_after_pieces: None,
+            hold: None,
         }
     }
 }
@@ -886,6 +923,7 @@ async fn client_send_half<B: BodyBuf, S: h3::quic::SendStream<B>>(
     }
     if plan.stop_after_pieces.is_none() {
         if let Some(t) = &plan.req.trailers {
+            probe.hold(actor, plan.hold, "send_trailers").await;
             probe
                 .call(actor, "send_trailers", s.send_trailers(header_map(t)), |r| unit_out(r, se))
                 .await
